@@ -92,6 +92,32 @@ int main()
       VectorDouble data(Z[0].begin(), Z[0].end());
       VectorDouble ns = VH::normalScore(data);
       if ((int)ns.size() == nech) monoOut("normal_score", Z[0], std::vector<double>(ns.begin(), ns.end()), st);
+      // undefined samples take no part: the scores of the defined samples are those computed on the defined samples alone
+      // (and the undefined ones stay undefined); equal weights change nothing; unweighted scores are symmetric about 0
+      {
+        VectorDouble holed = data, sub, wsub; std::vector<int> where;
+        VectorDouble wt(nech); for (auto& w : wt) w = 0.5 * (double)rng.range(1, 4);
+        bool weighted = rng.coin(0.4);
+        for (int i = 0; i < nech; i++) { if (rng.coin(0.25) && i > 0) holed[i] = TEST; else { sub.push_back(data[i]); wsub.push_back(wt[i]); where.push_back(i); } }
+        VectorDouble a = weighted ? VH::normalScore(holed, wt) : VH::normalScore(holed);
+        VectorDouble b = weighted ? VH::normalScore(sub, wsub) : VH::normalScore(sub);
+        if ((int)a.size() == nech && b.size() == sub.size())
+        {
+          std::vector<double> aa, bb; bool undefKept = true;
+          for (size_t k = 0; k < where.size(); k++) { aa.push_back(a[where[k]]); bb.push_back(b[k]); }
+          for (int i = 0; i < nech; i++) if (FFFF(holed[i]) && !FFFF(a[i])) undefKept = false;
+          bool fin = true; for (double v : aa) if (FFFF(v) || !std::isfinite(v)) fin = false; for (double v : bb) if (FFFF(v) || !std::isfinite(v)) fin = false;
+          if (fin) closeOut(weighted ? "normal_score_weighted_undefined_removed" : "normal_score_undefined_removed", std::ldexp(1., -40), aa, bb, st);
+          else printf("t close normal_score_undefined_values_not_finite 0:0 1:0 0:0 =>\n");
+          if (!undefKept) printf("t close normal_score_of_undefined_sample_defined 0:0 1:0 0:0 =>\n");
+        }
+        VectorDouble c = VH::normalScore(data, VectorDouble(nech, 2.5));
+        if ((int)c.size() == nech && (int)ns.size() == nech) closeOut("normal_score_equal_weights", std::ldexp(1., -20), std::vector<double>(ns.begin(), ns.end()), std::vector<double>(c.begin(), c.end()), st);
+        // symmetry (values all distinct: the generator of Z[0] may produce ties, then skipped)
+        std::vector<double> srt(ns.begin(), ns.end()); std::sort(srt.begin(), srt.end());
+        std::vector<double> zs(data.begin(), data.end()); std::sort(zs.begin(), zs.end()); bool ties = false; for (size_t k = 1; k < zs.size(); k++) if (zs[k] == zs[k - 1]) ties = true;
+        if (!ties && (int)srt.size() == nech) { std::vector<double> neg(srt.rbegin(), srt.rend()); for (auto& v : neg) v = -v; closeOut("normal_score_symmetry", std::ldexp(1., -20), srt, neg, st); /* the inverse Gaussian c.d.f. of the library is a 1e-7 approximation (its value at 1/2 is -4e-8) */ }
+      }
     }
     // ---- Gaussian anamorphosis (Hermite, empirical): Y -> Z -> Y and Z -> Y -> Z inside the reported interval
     {
